@@ -120,8 +120,45 @@ def solver_unions(ctx):
     return n, leaks
 
 
+def range_tables(ctx):
+    """every distance-dependent kernel of the shipped parameter set evaluated just beyond the longest range the property names
+    (20 A from a group centre, 25 A between nearest atoms): the concrete witness behind the decided range obligations"""
+    import propka.energy as E
+    from propka.parameters import Parameters
+    from propka.input import read_parameter_file
+    P = read_parameter_file("propka.cfg", Parameters())
+    bad = []
+    n = 0
+    for table in ("backbone_NH_hydrogen_bond", "backbone_CO_hydrogen_bond"):
+        for key, (dpka, c1, c2) in getattr(P, table).items():
+            n += 1
+            for d in (20.0, 25.0, 39.9):
+                v = E.hydrogen_bond_energy(d, dpka, [c1, c2])
+                if v != 0.0:
+                    bad.append(("%s[%s] = %r" % (table, key, [dpka, c1, c2]), "hydrogen_bond_energy(%r, %r, [%r, %r]) = %r" % (d, dpka, c1, c2, v)))
+                    break
+    types = list(P.interaction_matrix.dictionary.keys())
+    for a in types:
+        for b in types:
+            n += 1
+            c1, c2 = P.sidechain_cutoffs.get_value(a, b)
+            v = E.hydrogen_bond_energy(20.0, P.sidechain_interaction, [c1, c2])
+            if v != 0.0:
+                bad.append(("sidechain_cutoffs(%s, %s) = %r" % (a, b, (c1, c2)), "hydrogen_bond_energy(20.0, %r, [%r, %r]) = %r" % (P.sidechain_interaction, c1, c2, v)))
+    for w in (0.0, 0.5, 1.0):
+        n += 1
+        v = E.coulomb_energy(20.0, w, P)
+        if v != 0.0:
+            bad.append(("coulomb_cutoff2 = %r" % P.coulomb_cutoff2, "coulomb_energy(20.0, %r) = %r" % (w, v)))
+    ctx.case(key=("range tables", n))
+    for b in bad[:2]:
+        ctx.violate("range:" + b[0].split(" =")[0], "an interaction reaches beyond the stated range: %s gives %s" % b, dict(parameter=b[0], call=b[1]))
+    ctx.oblige("spec: every hydrogen-bond and Coulomb kernel of the shipped parameters vanishes at 20 A (%d table entries)" % n, not bad, str(bad[:2]))
+
+
 def run(ctx):
     rnd = ctx.rng
+    range_tables(ctx)
     parts = []
     for i in range(6 if ctx.quick() else 40):
         lines, ids = pdbgen.multichain(rnd, nchains=1, chains="A")
